@@ -3,6 +3,7 @@ import Driver.Store
 import Driver.Trav
 import Driver.Dec
 import Driver.Parse
+import Driver.Load
 /-!
 Line-protocol driver: evaluates the Lean model's executable definitions on requests read from stdin,
 one response per line. Built as a `lean_exe` (imports nothing outside core/Std).
@@ -23,6 +24,9 @@ def respond (line : String) : String :=
   | some r => r
   | none =>
   match respondParse ws with
+  | some r => r
+  | none =>
+  match respondLoad ws with
   | some r => r
   | none => "bad-request"
 
